@@ -4,6 +4,7 @@ package checks
 
 import (
 	_ "verif/checks/c01"
+	_ "verif/checks/c12"
 	_ "verif/checks/c13"
 	_ "verif/checks/c14"
 	_ "verif/checks/c16"
